@@ -467,6 +467,7 @@ pub mod filetime {
             old(w).inv(),
             mtime.is_none(),    // @L C09 C15:reads-never-touch-mtime
             atime.is_some() ==> atime.unwrap().wf(),
+            old(w).inodes.contains_key(f.ino()),
         ensures
             final(w).stepped(*old(w)),
             final(w).inv(),
@@ -783,7 +784,7 @@ pub mod std {
                 forall|i: InodeId| i != old(writer).ino() && old(w).inodes.contains_key(i) ==> #[trigger] final(w).inodes[i] == (Inode { atime: final(w).inodes[i].atime, ..old(w).inodes[i] }),
                 final(w).inodes[old(writer).ino()] == (Inode {
                     content: final(w).inodes[old(writer).ino()].content,
-                    mtime: final(w).inodes[old(writer).ino()].mtime,
+                    mtime: trunc(final(w).now, old(w).gran),
                     atime: final(w).inodes[old(writer).ino()].atime,
                     synced: false,
                     ..old(w).inodes[old(writer).ino()]
@@ -807,6 +808,7 @@ pub mod std {
                 ensures
                     final(w).inv(),
                     final(w).atime_only(*old(w)),
+                    forall|i: InodeId| #[trigger] final(w).inodes.contains_key(i) ==> old(w).inodes.contains_key(i),
                     final(w).kept(*old(w)) && final(w).listed == old(w).listed && final(w).published == old(w).published && final(w).now == old(w).now,
                     final(w).opens == old(w).opens && final(w).steps == old(w).steps + 1,
                     final(w).hard_faults == old(w).hard_faults + if r.is_err() { 1nat } else { 0nat },
@@ -1310,6 +1312,7 @@ pub mod std {
                 final(w).published == old(w).published,
                 final(w).files == old(w).files,
                 final(w).inodes == old(w).inodes,
+                forall|d: PathV| #[trigger] final(w).dirs.contains(d) && !old(w).dirs.contains(d) ==> !old(w).files.contains_key(d),   // mkdir never succeeds on an existing name
                 match r {
                     Ok(()) => {
                         &&& final(w).hard_faults == old(w).hard_faults
